@@ -15,7 +15,7 @@ LEVEL = "exploration"
 TIERS = {"quick": {"runs": 8000, "wall_cap": 600}, "thorough": {"runs": 250000, "wall_cap": 3300}}
 RULE = (
     "each evaluation is one seeded history (<=40 quick / <=70 thorough interleaved operations of 1-2 AuditableStore wrappers over one "
-    "Memory store: add/addN/remove with wildcards/set/commit/rollback through Graph and ConjunctiveGraph handles) executed against "
+    "Memory store: add/addN/remove with wildcards/set/SPARQL CLEAR/DROP/DELETE/commit/rollback through Graph and ConjunctiveGraph handles and through the Graph objects that quads()/contexts() hand out; faults: a vetoing store subscriber, a batch source that dies) executed against "
     "real rdflib and a quad-set model with per-wrapper transaction snapshots; distinct = distinct trace digest; non-trivial = the "
     "history contains at least one rollback that had a non-empty undo obligation (model content differed from the snapshot) "
 )
